@@ -255,6 +255,21 @@ class BaseModel(SolverMixin, ModelInterface):
                 f'cannot exceed value of `max_iter` ({max_iter})'
             )
 
+        # Error if the period cannot accommodate the model's lags or leads:
+        # reads at `t - lags` / `t + leads` would fall outside the span (and,
+        # with Python's negative indexing, silently wrap round to the other
+        # end)
+        t_position = t
+        if t_position < 0:
+            t_position += len(self.span)
+
+        if t_position - self.lags < 0 or t_position + self.leads >= len(self.span):
+            raise IndexError(
+                f'Unable to solve period at position `t` ({t}): '
+                f'the model has {self.lags} lag(s) and {self.leads} lead(s) '
+                f'but the span has {len(self.span)} period(s)'
+            )
+
         # Optionally copy initial values from another period
         if offset:
             t_check = t
